@@ -15,6 +15,7 @@ type Curve struct {
 	Funcs  map[string]reflect.Value
 	Types  map[string]reflect.Type
 	Shim   map[string]any
+	MsmCs  []int // window sizes implemented by the curve's MSM (frozen at registry generation)
 	Fp, Fr *Field
 }
 
